@@ -266,6 +266,7 @@ Proof.
       rewrite fresh_list_app, In_. reflexivity.
     + destruct (_ =? _); [|reflexivity]. rewrite fresh_list_app, In_. reflexivity.
   - destruct (zmem _ _); [reflexivity|]. destruct (zmem _ _); [reflexivity|]. destruct (_ =? _); reflexivity.
+  - destruct (zmem _ _); [reflexivity|]. destruct (zmem _ _); [reflexivity|]. destruct (_ =? _); reflexivity.
   - destruct (zmem _ _); [destruct (Nat.eqb _ _)|]; reflexivity.
 Qed.
 
